@@ -19,6 +19,10 @@ of names written so far):
   nothing reachable is skipped, whatever mix of persisted and in-memory nodes the tree holds
   (invariant `J`: below every persisted link hangs a completely persisted subtree whose names are
   all in the store);
+* `C03_retry_after_failures_is_complete`: the same for histories in which any number of `MakeRoot`
+  calls FAIL, each after an arbitrary subset of its writes has reached the store (`execF`): the
+  failed attempt commits nothing to the tree, so the attempt that succeeds writes every node again
+  that is not yet confirmed, and what it returns is completely in the store;
 * `C03_named_by_content`: each of those writes is (hash of the bytes, bytes).
 Together with `C03_barrier` (all queued writes have completed when `MakeRoot` returns, and a
 failure is reported) this is the property's first sentence.  Tied by the `flush` family: nothing
@@ -71,6 +75,30 @@ theorem C03_returned_version_is_in_the_store (e : Enc) (bf : Nat) (ops : List Op
   intro st
   exact (makeRoot_complete e st.2 st.1 (J_execS layer e ops (Tree.empty bf) [] (J_empty e bf))).1
 
+/-- **a retry after failures publishes a complete version**: histories in which any number of
+    `MakeRoot` calls fail, each after an arbitrary subset of its writes has reached the store,
+    between any operations and successful persists — a `MakeRoot` that then succeeds returns a
+    root all of whose nodes are in the store (it writes again whatever the failed attempts
+    left unconfirmed: a failed attempt commits nothing to the tree) -/
+theorem C03_retry_after_failures_is_complete (e : Enc) (bf : Nat) (ops : List OpF) :
+    let st := execF layer e (Tree.empty bf, []) ops
+    ∀ n ∈ reach e st.1, n ∈ st.2 ++ written e st.1 := by
+  intro st
+  exact (makeRoot_complete e st.2 st.1 (J_execF layer e ops (Tree.empty bf) [] (J_empty e bf))).1
+
+/-- non-vacuity: a failed attempt that lands only the top node (its two children are missing from
+    the store), then a successful one — the history is one the theorem speaks about, and the failed
+    attempt really leaves a dangling name behind -/
+example :
+    let e : Enc := { keyB := fun k => [k.toUInt8], valB := fun v => [v.toUInt8],
+                     node := fun n => (n.keys.flatten ++ n.vals.flatten ++ (n.links.map (fun l => l.getD [0])).flatten),
+                     hash := fun b => b }
+    let ops : List OpF := [.op (.ins 1 1), .op (.ins 2 1), .op (.ins 3 1), .op (.ins 4 2), .op (.ins 5 1),
+                           .failedPersist [false, false, true], .op .persist]
+    let mid := execF (fun k => if k % 4 = 0 then 1 else 0) e (Tree.empty 4, []) (ops.take 6)
+    (mid.2.length = 1) ∧ (reach e mid.1).length = 3 := by
+  decide
+
 theorem C03_named_by_content (e : Enc) (m : Tree) : ∀ x ∈ (makeRoot e m).1, x.1 = e.hash x.2 := by
   intro x hx
   unfold makeRoot at hx
@@ -86,6 +114,7 @@ theorem C03_named_by_content (e : Enc) (m : Tree) : ∀ x ∈ (makeRoot e m).1, 
 end Mast.Tree
 #print axioms Mast.Tree.C03_returned_version_is_in_the_store
 #print axioms Mast.Tree.C03_named_by_content
+#print axioms Mast.Tree.C03_retry_after_failures_is_complete
 #print axioms Mast.MF.C03_barrier
 #print axioms Mast.MF.C03_pool
 #print axioms Mast.MF.C03_error_reported
